@@ -13,7 +13,7 @@ RULE = ('Hypothesis: stream of 1..5 reference-built valid frames (mixed message 
         'deliver the identical list in order and no call may raise. Streams whose baseline is not the generated frame list '
         '(recorded findings: binary delimiter bytes, RTU multi-word diagnostics, undecodable FIFO responses) are excluded and '
         'counted. Sweeps: ALL 2^(n-1) cut sets of single frames and two-frame streams (sizes bounded per tier). Non-trivial: '
-        'some cut strictly inside a frame or a chunk holding bytes of >=2 frames; distinct by SHA-1.')
+        'some cut strictly inside a frame or a chunk holding bytes of >=2 frames; distinct by SHA-1. Streams may also be long pipelines (17..45 frames, sweep up to 100 frames in one read), contain frames addressed to another unit, and empty reads are inserted between any two chunks.')
 ASSUMPTIONS = ['the caller passes unit=[uid], single=False as a server hosting that unit (or a client expecting it) does']
 BUDGET = {'quick': 6000, 'thorough': 15000}
 FRAMINGS = ['tcp', 'rtu', 'ascii', 'binary']
